@@ -21,6 +21,20 @@ pub struct RuleArgs {
     pub so: i32,
     pub et: i32,
     pub doff: i32,
+    /// how the two local time types are dressed (DST flags, designations): irrelevant to acceptance, which the property ties to the
+    /// numeric conditions alone. 0: std plain / dst flagged; 1: both plain and unnamed (identical types when the offsets agree);
+    /// 2: both flagged and named alike; 3: flags the other way round, different names
+    #[serde(default)]
+    pub dress: u8,
+}
+
+fn dress(k: u8) -> ((bool, Option<&'static [u8]>), (bool, Option<&'static [u8]>)) {
+    match k {
+        1 => ((false, None), (false, None)),
+        2 => ((true, Some(b"ABC")), (true, Some(b"ABC"))),
+        3 => ((true, Some(b"SUMMER")), (false, Some(b"-03"))),
+        _ => ((false, None), (true, None)),
+    }
 }
 
 impl RuleArgs {
@@ -30,8 +44,9 @@ impl RuleArgs {
 }
 
 fn call(a: &RuleArgs) -> Result<Result<AlternateTime, TRE>, String> {
-    let std = LocalTimeType::new(a.so, false, None).map_err(|e| format!("{e:?}"))?;
-    let dst = LocalTimeType::new(a.doff, true, None).map_err(|e| format!("{e:?}"))?;
+    let ((f1, n1), (f2, n2)) = dress(a.dress);
+    let std = LocalTimeType::new(a.so, f1, n1).map_err(|e| format!("{e:?}"))?;
+    let dst = LocalTimeType::new(a.doff, f2, n2).map_err(|e| format!("{e:?}"))?;
     let s = a.start.to_tz().map_err(|e| format!("{e:?}"))?;
     let e = a.end.to_tz().map_err(|e| format!("{e:?}"))?;
     Ok(AlternateTime::new(std, dst, s, a.st, e, a.et))
@@ -72,7 +87,8 @@ pub fn check_args(a: &RuleArgs, stable: Option<bool>, st: &mut Stats) -> Result<
     match (&got, stable) {
         (Ok(r), true) => {
             // accessors give back what went in
-            if r.dst_start_time() != a.st || r.dst_end_time() != a.et || r.std().ut_offset() != a.so || r.dst().ut_offset() != a.doff || *r.dst_start() != a.start.to_tz().unwrap() || *r.dst_end() != a.end.to_tz().unwrap() {
+            let ((f1, _), (f2, _)) = dress(a.dress);
+            if r.dst_start_time() != a.st || r.dst_end_time() != a.et || r.std().ut_offset() != a.so || r.dst().ut_offset() != a.doff || r.std().is_dst() != f1 || r.dst().is_dst() != f2 || *r.dst_start() != a.start.to_tz().unwrap() || *r.dst_end() != a.end.to_tz().unwrap() {
                 return Err(format!("{a:?}: accessors of the accepted rule differ from the arguments"));
             }
             st.class("accepted");
@@ -99,16 +115,16 @@ fn uni(rng: &mut impl proptest::prelude::RngCore, lo: i64, hi: i64) -> i64 {
 }
 
 /// Realise a given d as (st, so, et, doff) with all four inside their windows.
-fn split_d(rng: &mut impl proptest::prelude::RngCore, d: i64) -> Option<(i32, i32, i32, i32)> {
+fn split_d(rng: &mut impl proptest::prelude::RngCore, d: i64, same_offsets: bool) -> Option<(i32, i32, i32, i32)> {
     // d = A + B, A = st - et in [-(2W-2), 2W-2], B = doff - so in [-(OFF_HI-OFF_LO-2), ..]
     let amax = 2 * (WEEK - 1);
     let bmax = (OFF_HI - 1) - (OFF_LO + 1);
     let blo = (-bmax).max(d - amax);
     let bhi = bmax.min(d + amax);
-    if blo > bhi {
+    if blo > bhi || (same_offsets && !(blo..=bhi).contains(&0)) {
         return None;
     }
-    let b = uni(rng, blo, bhi);
+    let b = if same_offsets { 0 } else { uni(rng, blo, bhi) };
     let a = d - b;
     // st in [-(W-1), W-1], et = st - a in range
     let st_lo = (-(WEEK - 1)).max(a - (WEEK - 1));
@@ -182,9 +198,20 @@ pub fn run(ctx: &Ctx) -> Outcome {
             for &d in dsr {
                 let stable = orule::order_stable(&sp, d);
                 for _ in 0..splits {
-                    let (stt, so, et, doff) = split_d(&mut rng, d).expect("d realisable");
-                    let a = RuleArgs { start, end, st: stt, so, et, doff };
+                    let (stt, so, et, doff) = split_d(&mut rng, d, false).expect("d realisable");
+                    let a = RuleArgs { start, end, st: stt, so, et, doff, dress: (rng.next_u32() % 4) as u8 };
                     check_enum("args", &a, st, |a, st| check_args(a, Some(stable), st))?;
+                    if stable {
+                        n_acc += 1
+                    } else {
+                        n_ref += 1
+                    }
+                }
+                // the same decision with two identical local time types (equal offsets, flags and names): d is carried by the times alone
+                if let Some((stt, so, et, doff)) = split_d(&mut rng, d, true) {
+                    let a = RuleArgs { start, end, st: stt, so, et, doff, dress: 1 + (rng.next_u32() % 2) as u8 };
+                    check_enum("args", &a, st, |a, st| check_args(a, Some(stable), st))?;
+                    st.class("identical_types");
                     if stable {
                         n_acc += 1
                     } else {
@@ -222,7 +249,7 @@ pub fn run(ctx: &Ctx) -> Outcome {
                     for &doff in &offs {
                         for &stt in &times {
                             for &et in &times {
-                                let a = RuleArgs { start: s, end: e, st: stt, so, et, doff };
+                                let a = RuleArgs { start: s, end: e, st: stt, so, et, doff, dress: ((so as u32 ^ stt as u32) % 4) as u8 };
                                 check_enum("args", &a, st, |a, st| {
                                     let r = check_args(a, None, st);
                                     st.nontrivial_exact(1);
@@ -273,13 +300,15 @@ pub fn run(ctx: &Ctx) -> Outcome {
         return out;
     }
     // proptest: arbitrary tuples (times/offsets not on the d-lattice), decided by direct evaluation
-    let strat = (0..N_NOTATIONS, 0..N_NOTATIONS, -700_000i32..700_000, -95_000i32..100_000, -700_000i32..700_000, -95_000i32..100_000, any::<bool>()).prop_map(|(s, e, stt, so, et, doff, same)| RuleArgs {
+    let strat = (0..N_NOTATIONS, 0..N_NOTATIONS, -700_000i32..700_000, -95_000i32..100_000, -700_000i32..700_000, -95_000i32..100_000, any::<bool>(), 0u8..8).prop_map(|(s, e, stt, so, et, doff, same, dr)| RuleArgs {
         start: MDay::from_index(s),
         end: MDay::from_index(if same { s } else { e }),
         st: stt,
         so,
         et,
-        doff,
+        // a quarter of the tuples have equal offsets (with dress 1/2: identical types)
+        doff: if dr >= 6 { so } else { doff },
+        dress: dr % 4,
     });
     let cases = ctx.tier.pick(20_000u32, 400_000u32);
     let rs = par_shards(16, |shard, st| {
